@@ -13,23 +13,26 @@ VARIABLES fl,      \* "text" | "binary", fixed in Init
           oc, out, \* outcome and returned value of the last call
           kb,      \* recorded-defect predicates that hold for the last call
           agree,   \* the last call, abstracted, is the Ideal call
-          same     \* the last call did not change f at all
-vars == <<fl, f, oc, out, kb, agree, same>>
+          same,    \* the last call did not change f at all
+          ser      \* observation demanded after every call: can the container be written (and read back
+                   \* with its content) now?  A function of f; S2 executes it on a copy of the real object,
+                   \* so that state the model does not have (caches left behind by the history) shows
+vars == <<fl, f, oc, out, kb, agree, same, ser>>
 
 AllCalls ==
        {<<"FSet", <<b, l>>>> : b \in BKeys, l \in BlockLits}
   \cup {<<"FSetWrong", <<b>>>> : b \in {PB}}
   \cup {<<op, <<b>>>> : op \in {"FGet", "FDel", "FContains"}, b \in BKeys}
   \cup {<<op, <<>>>> : op \in {"FIter", "FLen", "Reload", "Peek"}}
-  \cup {<<"FEq", <<l>>>> : l \in {"self"} \cup FileLits}
+  \cup {<<"FEq", <<l>>>> : l \in EqSelfKinds \cup FileLits}
   \cup {<<"BSet", <<c, l>>>> : c \in CKeys, l \in CatLits}
   \cup {<<op, <<c>>>> : op \in {"BGet", "BDel", "BContains"}, c \in CKeys}
   \cup {<<op, <<>>>> : op \in {"BIter", "BLen"}}
-  \cup {<<"BEq", <<l>>>> : l \in {"self"} \cup BlockLits}
-  \cup {<<"CSet", <<k, v>>>> : k \in KKeys, v \in ColLits}
+  \cup {<<"BEq", <<l>>>> : l \in EqSelfKinds \cup BlockLits}
+  \cup {<<"CSet", <<k, v, fm>>>> : k \in KKeys, v \in ColLits, fm \in ColForms}
   \cup {<<op, <<k>>>> : op \in {"CGet", "CDel", "CContains"}, k \in KKeys}
   \cup {<<op, <<>>>> : op \in {"CIter", "CLen"}}
-  \cup {<<"CEq", <<l>>>> : l \in {"self"} \cup CatLits}
+  \cup {<<"CEq", <<l>>>> : l \in EqSelfKinds \cup CatLits}
 
 Call(c) ==
   LET r == Apply(fl, f, c[1], c[2])
@@ -38,9 +41,10 @@ Call(c) ==
      /\ f' = r.f /\ oc' = r.oc /\ out' = r.out /\ kb' = r.kb
      /\ agree' = (AbsFile(r.f) = i.f /\ r.oc = i.oc /\ r.out = i.out)
      /\ same' = (r.f = f)
+     /\ ser' = IdealSerializable(AbsFile(r.f))
      /\ UNCHANGED fl
 
-Init == fl \in {"text", "binary"} /\ f = <<>> /\ oc = "ok" /\ out = <<>> /\ kb = {} /\ agree = TRUE /\ same = FALSE
+Init == fl \in {"text", "binary"} /\ f = <<>> /\ oc = "ok" /\ out = <<>> /\ kb = {} /\ agree = TRUE /\ same = FALSE /\ ser = TRUE
 Next == \E c \in AllCalls : Call(c)
 Spec == Init /\ [][Next]_vars
 DepthBound == TLCGet("level") <= Depth
@@ -66,6 +70,10 @@ InvKeysUnique ==
 InvStaleCharacterised ==
   /\ ImplSerializable(fl, f) => IdealSerializable(AbsFile(f))
   /\ (IdealSerializable(AbsFile(f)) /\ ~ImplSerializable(fl, f)) => HasStaleCat(f)
+\* the observation `ser` on the code-shaped container: in every reachable state the walk of serialize()
+\* succeeds exactly when the property calls the content serialisable (no history leaves a cache behind
+\* that blocks writing - the class KB_StaleRowCount is empty since c2b1fbb3)
+InvSerObservation == ser = ImplSerializable(fl, f)
 \* a refused call changes nothing that can be observed
 RefusalIsNoOp == [][oc' # "ok" => AbsFile(f') = AbsFile(f)]_vars
 \* key prefixing of BinaryCIFBlock: the intended inverse is exact; the coded one is exact too since
